@@ -357,7 +357,11 @@ func visitInstr(fr *frame, instr ssa.Instruction) continuation {
 		}
 
 	case *ssa.TypeAssert:
-		fr.env[instr] = typeAssert(fr.i, instr, fr.i.asIface(fr.get(instr.X)))
+		if lz, ok := fr.get(instr.X).(*lazyIface); ok {
+			fr.env[instr] = fr.i.typeAssertLazy(instr, lz)
+		} else {
+			fr.env[instr] = typeAssert(fr.i, instr, fr.i.asIface(fr.get(instr.X)))
+		}
 
 	case *ssa.MakeClosure:
 		var bindings []value
@@ -533,6 +537,16 @@ func callSSA(i *interpreter, caller *frame, callpos token.Pos, fn *ssa.Function,
 			panic(engineError{"no code for function: " + name + "\n" + i.stack()})
 		}
 	}
+	return i.runFrameFor(fr, fn, args, env)
+}
+
+// runSSA executes the SSA body of fn, bypassing intrinsics.
+func (i *interpreter) runSSA(caller *frame, fn *ssa.Function, args []value, env []value) value {
+	fr := &frame{i: i, caller: caller, fn: fn}
+	return i.runFrameFor(fr, fn, args, env)
+}
+
+func (i *interpreter) runFrameFor(fr *frame, fn *ssa.Function, args []value, env []value) value {
 	saved := i.cur
 	i.cur = fr
 	defer func() { i.cur = saved }()
